@@ -73,6 +73,8 @@ func buildArena(a arenaSpec) {
 	mustWrite(p+"/sib/keep", "OUTSIDE-sib", 0644)
 	mustWrite(p+"/"+a.Base+"-evil/x", "OUTSIDE-evil-x", 0644)
 	os.MkdirAll(p+"/"+a.Base+"x", 0755)
+	// a sibling whose name differs from dst's only in the case of its letters
+	mustWrite(p+"/"+strings.ToUpper(a.Base)+"/keep", "OUTSIDE-other-case", 0644)
 	os.MkdirAll(a.Dst(), 0755)
 	if a.Prepop {
 		mustWrite(a.Dst()+"/a", "old-a", 0444)
